@@ -283,7 +283,7 @@ theorem fusionWS {F : Feat} {g : Grammar} (hwf : WF F g)
   have hns := hwf.lookup_skip
   have hwn : L1.isTriviaName wr.name = true := by
     rw [lookup_name hw]; decide
-  have hnode : AllN (NodeOK (sigOf g)) (.choice es) := hb ▸ hwf.nodes wr (lookup_mem hw)
+  have hnode : AllN (NodeOK ⟨sigOf g, forced wr⟩) (.choice es) := hb ▸ hwf.nodes wr (lookup_mem hw)
   have hall : AllNL SqOK es := AllNL.imp2 (fun y hy => SqOK_of_NodeOK y hy.root) es hnode.2
   have hpw := op_pairwise g ho
   have hok := squash_altOK 1000 es [] alts hq hall (fun a ha => by simp at ha)
@@ -297,7 +297,7 @@ theorem fusionWS {F : Feat} {g : Grammar} (hwf : WF F g)
     exact Evt.shift ((h2 hpw st).mono fun n hn => hn)
   have hg0 := fused_ext g (.optChoice alts true) hns
   constructor
-  · intro inp n _ s hne'
+  · intro inp n _ s hp hne'
     by_cases ha : s.atomic = true
     · rw [skip_atomic_id g _ n ha]
       exact ⟨0, fun m _ => skip_atomic_id _ _ _ ha⟩
@@ -311,7 +311,7 @@ theorem fusionWS {F : Feat} {g : Grammar} (hwf : WF F g)
       obtain ⟨m', rfl⟩ : ∃ x, m = x + 1 := ⟨m - 1, by omega⟩
       rw [skip_fused_any hg0 _ _ hst, optStar_run (g := g) inp (ext g (.optChoice alts true)) rfl hpw hok m' _]
       rfl
-  · intro inp m _ s hne'
+  · intro inp m _ s hp hne'
     by_cases ha : s.atomic = true
     · rw [skip_atomic_id _ _ m ha]
       exact ⟨0, fun n _ => skip_atomic_id g _ _ ha⟩
